@@ -62,6 +62,26 @@ theorem served_attrs_thread_local :
     (∀ row ∈ Gen.tsErrorsMap, row.2.2.2.2.2 = true) ∧ Gen.tsErrorsMapReadOnly = true := by
   decide
 
+/-- the lazily filled module-level template cache (`error_render._html_lns`) is an init-once cell:
+whoever comes first fills it, and what any request reads from it is the template of the tree
+(generated digest) whatever the heap, hence whatever the schedule so far; once filled it stays filled -/
+theorem template_cache_init_once (v : Variant) (t : ThreadId) (a : AppId) (h : Heap) :
+    (exec v t a .tmplLoad h).2 = .val (.str Gen.tsTemplateDigest) ∧
+    (exec v t a .tmplLoad h).1.tmplLoaded = true := by
+  cases v <;> exact ⟨rfl, rfl⟩
+
+theorem template_cache_stays_filled (v : Variant) (t : ThreadId) (a : AppId) (acc : Access) (h : Heap)
+    (hl : h.tmplLoaded = true) : (exec v t a acc h).1.tmplLoaded = true := by
+  have key : ∀ (us : List Upd) (h : Heap), h.tmplLoaded = true → (applyAll h us).tmplLoaded = true := by
+    intro us
+    induction us with
+    | nil => intro h hh; exact hh
+    | cons u us ih =>
+      intro h hh
+      apply ih
+      cases u <;> simp only [Upd.apply, hh]
+  exact key _ h hl
+
 /-- tie to the source: every plain (not thread-local) slot or module object that the probe saw
 touched while serving was left unchanged or rewritten with equal content -/
 theorem shared_objects_read_only :
@@ -114,9 +134,9 @@ example : ∀ t, (progsAB t).Serves 1 := by
   intro t
   unfold progsAB
   split
-  · exact served_requests_serve 1 [reqA] (by simp [reqA, Req.LocalTo, HOp.isLocal])
+  · exact served_requests_serve 1 [reqA] (by simp [reqA, Req.LocalTo, HOp.isLocal, Outcome.LocalTo])
   · split
-    · exact served_requests_serve 1 [reqB] (by simp [reqB, Req.LocalTo, HOp.isLocal])
+    · exact served_requests_serve 1 [reqB] (by simp [reqB, Req.LocalTo, HOp.isLocal, Outcome.LocalTo])
     · exact Prog.Serves.done
 
 /-- strict alternation of the two threads, 150 steps each -/
